@@ -207,9 +207,11 @@ def cmd_check(pid, tier):
     cfg = load_cfg(pid)
     known = known_findings(pid)
     exclude = sorted({x for e in known if e.get("status") == "known" for x in e.get("exclude", [])})
-    work = os.path.join(VERIF, "work", "%s-%s" % (pid, tier))
+    # one scratch directory per invocation, so that concurrent runs of the same check do not collide
+    work = os.path.join(VERIF, "work", "%s-%s-%d" % (pid, tier, os.getpid()))
     shutil.rmtree(work, ignore_errors=True)
     os.makedirs(work)
+    latest = os.path.join(VERIF, "work", "%s-%s" % (pid, tier))
     log("[%s] tier=%s seed=%d repo=%s" % (pid, tier, seed, REPO))
     steps = [s for s in cfg["steps"] if tier in s.get("tiers", ["quick", "thorough"])]
     exes = build_all(pid, cfg, {s["binary"] for s in steps if "binary" in s} | set(cfg.get("replay_binaries", [])))
@@ -343,6 +345,12 @@ def cmd_check(pid, tier):
         f.write("\n")
     log("[%s] evaluations=%d distinct_nontrivial=%d inconclusive=%d wall=%.1fs" %
         (pid, cov["evaluations"], cov["distinct_nontrivial"], cov["inconclusive"], wall))
+    # keep the scratch directory of the latest run of this check/tier under a stable name
+    try:
+        shutil.rmtree(latest, ignore_errors=True)
+        os.rename(work, latest)
+    except OSError:
+        pass
     if violations:
         for label, path, msg, desc in violations:
             log("--- failure %s\n%s\n%s" % (label, (desc or "")[-2500:], msg[:2500]))
